@@ -50,14 +50,14 @@ pub fn judge_pair(ctx: &mut Ctx, a: &Operand, b: &Operand) {
         // exact characterisation for single alternatives; judged only where difference itself
         // agrees with the interval model (otherwise that is C08's finding)
         let model_none = b.b.witness_outside(&a.b).is_none();
-        if diff_none == model_none && all != diff_none {
+        if all != diff_none {
             // `(x, succ(x))`-style intervals hold no version: B∖A is None although the ends are
             // not nested. The statement's equivalence is about sets of versions; skip those.
-            if b.b.0[0].is_empty() {
+            if b.b.0[0].is_empty() && diff_none == model_none {
                 ctx.skip("B holds no version (gap interval)");
                 return;
             }
-            ctx.violation(&format!("all≠diff-none/{}", tc), w, format!("allows_all={} but B.difference(A).is_none()={}", all, diff_none));
+            ctx.violation(&format!("all≠diff-none/{}", tc), w, format!("allows_all={} but B.difference(A).is_none()={} (interval model: nothing of B outside A = {})", all, diff_none, model_none));
         }
     }
 }
